@@ -19,6 +19,7 @@ Snips == <<
   "{{ x }}", "{{ d ~ x }}", "{{ x ? d : v }}",
   "{{ 1 .. - 1 }}", "{{ - a .. + b }}", "{{ [- a, + b] }}", "{{ f(- a, not b) }}", "{{ a == - b }}", "{{ {a: - b} }}",
   "{{ not inactive }}", "{{ a is nothing }}", "{{ a in index }}", "{{ isa or b }}",
+  "{{ a.0.b }}", "{{ 1.5 + a }}", "{{ [2.25, s.1.k] }}",
   "{% if a %}", "{% elseif a == 1 %}", "{% else %}", "{% endif %}", "{% for k, v in s if v %}", "{% endfor %}", "{% set x = a ~ b %}",
   "{% include 'p' with {a: 1} only %}", "{% macro m(a, b) %}", "{% import 'p' as q %}", "{% from 'p' import a as b, c %}",
   "{% use 'p' with a as b %}", "{% filter f|g %}", "{% block b %}", "{% extends 'p' %}", "{% embed 'p' %}", "{% endembed %}", "{% do a %}",
